@@ -92,6 +92,37 @@ func (env *specEnv) resolveType(name string) types.Type {
 	case "ref":
 		return types.NewPointer(types.NewStruct(nil, nil))
 	}
+	// qualified names: [*|[]]pkg.Type (imports are not visible in the package scope)
+	if i := strings.LastIndex(name, "."); i > 0 {
+		prefix := ""
+		rest := name
+		for strings.HasPrefix(rest, "*") || strings.HasPrefix(rest, "[]") {
+			if rest[0] == '*' {
+				prefix += "*"
+				rest = rest[1:]
+			} else {
+				prefix += "[]"
+				rest = rest[2:]
+			}
+		}
+		if j := strings.LastIndex(rest, "."); j > 0 {
+			if p := env.e.prog.pkgByNameOrPath(rest[:j]); p != nil {
+				if tn, ok := p.Scope().Lookup(rest[j+1:]).(*types.TypeName); ok {
+					var t types.Type = tn.Type()
+					for k := len(prefix); k > 0; {
+						if prefix[k-1] == '*' {
+							t = types.NewPointer(t)
+							k--
+						} else {
+							t = types.NewSlice(t)
+							k -= 2
+						}
+					}
+					return t
+				}
+			}
+		}
+	}
 	tv, err := types.Eval(env.e.prog.fset, pkg, token.NoPos, name)
 	if err != nil || tv.Type == nil {
 		sfail("cannot resolve type %q: %v", name, err)
@@ -672,6 +703,15 @@ func (env *specEnv) call(n *ECall) Val {
 	case "off":
 		a := env.eval(n.Args[0])
 		return Val{T: tInt, L: []string{a.L[1]}}
+	case "unbox":
+		// unbox(x, "T"): the value of dynamic type T held by interface value x (meaningful when typeis(x, "T"))
+		v := env.eval(n.Args[0])
+		s, ok := n.Args[1].(*EStr)
+		if !ok || len(v.L) != 2 {
+			sfail("unbox(iface, \"type\")")
+		}
+		t := env.resolveType(s.V)
+		return env.withState(env.st, func() Val { return e.unboxIface(v, t) })
 	case "embed":
 		// embed(p, "field"): reference of the struct-valued field embedded in *p
 		p := env.eval(n.Args[0])
